@@ -17,8 +17,8 @@
    Outside the theorems: allocation (a hostile header cannot request memory any more: the decoder no
    longer reserves the announced size), the extended 32-bit size on a 32-bit target. *)
 From Coq Require Import List NArith Bool.
-From Mila Require Import Lib.Bytes Lib.Machine Model.LZCore Model.LZSpec Model.LZDecode
-  Proofs.LZDecodeProofs Proofs.LZConforming Proofs.LZTotal Proofs.LZTruncated Proofs.LZBackref Proofs.LZErrors.
+From Mila Require Import Lib.Bytes Lib.Machine Model.LZCore Model.LZ10 Model.LZ11 Model.LZSpec Model.LZDecode
+  Proofs.LZDecodeProofs Proofs.LZConforming Proofs.LZTotal Proofs.LZTruncated Proofs.LZBackref Proofs.LZErrors Proofs.LZFormat.
 Import ListNotations.
 Local Open Scope N_scope.
 
@@ -55,6 +55,22 @@ Proof. exact lz13_stored. Qed.
 Theorem C11_format_dispatch : forall f m bytes,
   cf_decompress f m bytes = match f with CF10 => lz10_decompress m bytes | CF13 => lz13_decompress m bytes end.
 Proof. exact dispatch. Qed.
+
+(* decompress . compress = id through the enum, for both variants, the empty payload included; and the formats
+   crossed: the LZ13 entry point reads what the LZ10 format wrote (bare stream), the LZ10 entry point rejects
+   what the LZ13 format wrote (0x13 wrapper = unknown type) *)
+Theorem C11_format_round_trip : forall f mc md x, wfb x -> lenN x < 2 ^ 24 ->
+  exists c, cf_compress f mc x = Ok c /\ cf_decompress f md c = Ok x.
+Proof. exact cf_round_trip. Qed.
+
+Theorem C11_formats_crossed : forall mc md x, wfb x -> lenN x < 2 ^ 24 ->
+  (exists c, cf_compress CF10 mc x = Ok c /\ cf_decompress CF13 md c = Ok x) /\
+  (forall c, cf_compress CF13 mc x = Ok c -> cf_decompress CF10 md c = Err EInvalidInput).
+Proof.
+  intros mc md x Hw Hn. split; [exact (cf13_reads_cf10 mc md x Hw Hn)|].
+  intros c Hc. apply (cf10_rejects_cf13 mc md x c); [|exact Hc].
+  change (2 ^ 24) with 16777216 in Hn. change (2 ^ 63) with 9223372036854775808. apply N.lt_trans with (1 := Hn). reflexivity.
+Qed.
 
 (* --- never a panic: arbitrary input (not even required to consist of bytes), either mode --- *)
 Theorem C11_total : forall m bytes,
